@@ -1,71 +1,115 @@
 package parser
 
+import "math"
+
 type IntOperation struct {
 	NullOperation
 }
 
-func (o *IntOperation) get(left Operand, right Operand) (int, int, error) {
+// compareFloatToInt orders f relative to r without truncating f or rounding
+// r: -1, 0 or +1.  ordered is false when f is NaN.
+func compareFloatToInt(f float64, r int) (c int, ordered bool) {
+	const two63 = 9223372036854775808.0
+	switch {
+	case f != f:
+		return 0, false
+	case f >= two63:
+		return 1, true
+	case f < -two63:
+		return -1, true
+	}
+	whole := math.Trunc(f) // exactly representable as int
+	switch i := int(whole); {
+	case i < r:
+		return -1, true
+	case i > r:
+		return 1, true
+	case f < whole:
+		return -1, true
+	case f > whole:
+		return 1, true
+	}
+	return 0, true
+}
+
+// cmp orders the attribute value relative to the integer of the rule: -1, 0
+// or +1.  ordered is false when the attribute is NaN, which is neither equal
+// to, smaller nor greater than anything.
+func (o *IntOperation) cmp(left Operand, right Operand) (c int, ordered bool, err error) {
 	if left == nil {
-		return 0, 0, ErrEvalOperandMissing
+		return 0, false, ErrEvalOperandMissing
+	}
+	if f, ok := left.(float64); ok {
+		rightVal, err := toInt(right)
+		if err != nil {
+			return 0, false, err
+		}
+		c, ordered = compareFloatToInt(f, rightVal)
+		return c, ordered, nil
 	}
 	leftVal, err := toInt(left)
 	if err != nil {
-		return 0, 0, err
+		return 0, false, err
 	}
 	rightVal, err := toInt(right)
 	if err != nil {
-		return 0, 0, err
+		return 0, false, err
 	}
-	return leftVal, rightVal, nil
-
+	switch {
+	case leftVal < rightVal:
+		return -1, true, nil
+	case leftVal > rightVal:
+		return 1, true, nil
+	}
+	return 0, true, nil
 }
 
 func (o *IntOperation) EQ(left Operand, right Operand) (bool, error) {
-	l, r, err := o.get(left, right)
+	c, ordered, err := o.cmp(left, right)
 	if err != nil {
 		return false, err
 	}
-	return l == r, nil
+	return ordered && c == 0, nil
 }
 
 func (o *IntOperation) NE(left Operand, right Operand) (bool, error) {
-	l, r, err := o.get(left, right)
+	c, ordered, err := o.cmp(left, right)
 	if err != nil {
 		return false, err
 	}
-	return l != r, nil
+	return !ordered || c != 0, nil
 }
 
 func (o *IntOperation) GT(left Operand, right Operand) (bool, error) {
-	l, r, err := o.get(left, right)
+	c, ordered, err := o.cmp(left, right)
 	if err != nil {
 		return false, err
 	}
-	return l > r, nil
+	return ordered && c > 0, nil
 }
 
 func (o *IntOperation) LT(left Operand, right Operand) (bool, error) {
-	l, r, err := o.get(left, right)
+	c, ordered, err := o.cmp(left, right)
 	if err != nil {
 		return false, err
 	}
-	return l < r, nil
+	return ordered && c < 0, nil
 }
 
 func (o *IntOperation) GE(left Operand, right Operand) (bool, error) {
-	l, r, err := o.get(left, right)
+	c, ordered, err := o.cmp(left, right)
 	if err != nil {
 		return false, err
 	}
-	return l >= r, nil
+	return ordered && c >= 0, nil
 }
 
 func (o *IntOperation) LE(left Operand, right Operand) (bool, error) {
-	l, r, err := o.get(left, right)
+	c, ordered, err := o.cmp(left, right)
 	if err != nil {
 		return false, err
 	}
-	return l <= r, nil
+	return ordered && c <= 0, nil
 }
 
 func (o *IntOperation) IN(left Operand, right Operand) (bool, error) {
